@@ -5,6 +5,9 @@ import Percival.Model.EArray
 namespace Percival.Proofs.EArray
 open Percival.Model Percival.Model.EArray Percival.Spec.DS
 
+/-- closes goals that are `True` or a reflexive equation, whichever `simp only` left behind -/
+macro "triv" : tactic => `(tactic| first | trivial | rfl)
+
 /-- the representation invariant of `struct elasticarray` -/
 structure Inv (a : EA) : Prop where
   le : a.size ≤ a.alloc
